@@ -148,7 +148,7 @@ theorem parseResponse_of_head (h : HeadS) (hh : h.WF Consts.maxLineLen) (rest : 
     ∃ r1, r1.Ok ∧ r1.flat = rest ∧ ∀ m f, chooseFraming m h.code h.seen = .ok f →
       parseResponse m mh cap t = .ok {
         status := h.code, headers := h.seen.remove nameTE,
-        rawHeaders := h.seen, coding := selectCoding m h.seen, body := Body.new f r1 } := by
+        rawHeaders := h.seen, coding := codingFor (bodyless m h.code) m h.seen, body := Body.new f r1 } := by
   obtain ⟨r1, h1, h2, h3⟩ := head_buf h hh rest t cap mh hwf hcap hmh hms hflat
   refine ⟨r1, h2, h3, ?_⟩
   intro m f hf
@@ -282,7 +282,7 @@ theorem parseResponse_flat (t : Transport) (cap mh : Nat) (m : Method) (hwf : wf
            | .error e => .err e
            | .ok f => .ok {
                status := status, headers := hs.remove nameTE, rawHeaders := hs,
-               coding := selectCoding m hs, body := Body.new f r1 })
+               coding := codingFor (bodyless m status) m hs, body := Body.new f r1 })
         | .err e => .err e
         | .blocked => .blocked
         | .panic => .panic := by
